@@ -28,6 +28,8 @@
 #define BB_MIN_ENTRY_SIZE (4 * sizeof(uint32_t) +\
 			   sizeof(uint8_t) +\
 			   2 * sizeof(char) + sizeof(time_t))
+/* the same with a struct timespec (new file format) */
+#define BB_MIN_ENTRY_SIZE_TS (BB_MIN_ENTRY_SIZE - sizeof(time_t) + sizeof(struct timespec))
 
 #define BB_TOO_LONG_MSG "Log message too long to be stored in the blackbox.  "\
 			"Maximum is QB_LOG_MAX_LEN"
@@ -223,6 +225,7 @@ qb_log_blackbox_print_from_file(const char *bb_filename)
 	qb_ringbuffer_t *instance;
 	ssize_t bytes_read;
 	int max_size = 2 * QB_LOG_MAX_LEN;
+	size_t min_entry;
 	char *chunk;
 	int fd;
 	int err = 0;
@@ -284,7 +287,8 @@ qb_log_blackbox_print_from_file(const char *bb_filename)
 
 		bytes_read = qb_rb_chunk_read(instance, chunk, max_size, 0);
 
-		if (bytes_read >= 0 && bytes_read < BB_MIN_ENTRY_SIZE) {
+		min_entry = have_timespecs ? BB_MIN_ENTRY_SIZE_TS : BB_MIN_ENTRY_SIZE;
+		if (bytes_read >= 0 && bytes_read < min_entry) {
 			printf("ERROR Corrupt file: blackbox header too small.\n");
 			err = -1;
 			goto cleanup;
@@ -310,7 +314,7 @@ qb_log_blackbox_print_from_file(const char *bb_filename)
 
 		/* function size & name */
 		memcpy(&fn_size, ptr, sizeof(uint32_t));
-		if ((fn_size + BB_MIN_ENTRY_SIZE) > bytes_read) {
+		if ((fn_size + min_entry) > bytes_read) {
 #ifndef S_SPLINT_S
 			printf("ERROR Corrupt file: fn_size way too big %" PRIu32 "\n", fn_size);
 			err = -EIO;
@@ -376,7 +380,7 @@ qb_log_blackbox_print_from_file(const char *bb_filename)
 		       qb_log_priority2str(priority),
 		       time_buf, function, lineno, tags, message);
 
-	} while (bytes_read > BB_MIN_ENTRY_SIZE);
+	} while (bytes_read > min_entry);
 
 cleanup:
 	qb_rb_close(instance);
